@@ -106,6 +106,142 @@ def thin(data, rng, per_part=25):
     return out.getvalue(), removed
 
 
+_DONORS = None
+R_NS_ = "http://schemas.openxmlformats.org/officeDocument/2006/relationships"
+_STATIC_DONORS = [
+    # what current PowerPoint versions write and python-pptx never does
+    ("{%(p)s}sld", '<p:extLst xmlns:p="%(p)s"><p:ext uri="{BB962C8B-B14F-4D97-AF65-F5344CB8AC3E}"><p14:creationId '
+                   'xmlns:p14="http://schemas.microsoft.com/office/powerpoint/2010/main" val="1234567"/></p:ext></p:extLst>'),
+    ("{%(p)s}sld", '<p:timing xmlns:p="%(p)s"><p:tnLst><p:par><p:cTn id="1" dur="indefinite" restart="never" nodeType="tmRoot"/>'
+                   '</p:par></p:tnLst></p:timing>'),
+    ("{%(p)s}sld", '<p:transition xmlns:p="%(p)s" spd="slow"><p:fade/></p:transition>'),
+    ("{%(p)s}spTree", '<p:extLst xmlns:p="%(p)s"><p:ext uri="{11111111-2222-3333-4444-555555555555}"><x:y xmlns:x="urn:x-foreign"/></p:ext></p:extLst>'),
+    ("{%(p)s}grpSp", '<p:extLst xmlns:p="%(p)s"><p:ext uri="{11111111-2222-3333-4444-555555555555}"><x:y xmlns:x="urn:x-foreign"/></p:ext></p:extLst>'),
+    ("{%(p)s}cSld", '<p:extLst xmlns:p="%(p)s"><p:ext uri="{11111111-2222-3333-4444-555555555555}"><x:y xmlns:x="urn:x-foreign"/></p:ext></p:extLst>'),
+    ("{%(p)s}nvPr", '<p:extLst xmlns:p="%(p)s"><p:ext uri="{11111111-2222-3333-4444-555555555555}"><x:y xmlns:x="urn:x-foreign"/></p:ext></p:extLst>'),
+    ("{%(p)s}sp", '<p:extLst xmlns:p="%(p)s"><p:ext uri="{11111111-2222-3333-4444-555555555555}"><x:y xmlns:x="urn:x-foreign"/></p:ext></p:extLst>'),
+    ("{%(p)s}pic", '<p:extLst xmlns:p="%(p)s"><p:ext uri="{11111111-2222-3333-4444-555555555555}"><x:y xmlns:x="urn:x-foreign"/></p:ext></p:extLst>'),
+    ("{%(p)s}graphicFrame", '<p:extLst xmlns:p="%(p)s"><p:ext uri="{11111111-2222-3333-4444-555555555555}"><x:y xmlns:x="urn:x-foreign"/></p:ext></p:extLst>'),
+    ("{%(p)s}presentation", '<p:extLst xmlns:p="%(p)s"><p:ext uri="{11111111-2222-3333-4444-555555555555}"><x:y xmlns:x="urn:x-foreign"/></p:ext></p:extLst>'),
+    ("{%(a)s}tbl", None),
+    ("{%(a)s}tcPr", '<a:extLst xmlns:a="%(a)s"><a:ext uri="{11111111-2222-3333-4444-555555555555}"><x:y xmlns:x="urn:x-foreign"/></a:ext></a:extLst>'),
+    ("{%(a)s}rPr", '<a:extLst xmlns:a="%(a)s"><a:ext uri="{11111111-2222-3333-4444-555555555555}"><x:y xmlns:x="urn:x-foreign"/></a:ext></a:extLst>'),
+    ("{%(a)s}pPr", '<a:extLst xmlns:a="%(a)s"><a:ext uri="{11111111-2222-3333-4444-555555555555}"><x:y xmlns:x="urn:x-foreign"/></a:ext></a:extLst>'),
+    ("{%(a)s}bodyPr", '<a:extLst xmlns:a="%(a)s"><a:ext uri="{11111111-2222-3333-4444-555555555555}"><x:y xmlns:x="urn:x-foreign"/></a:ext></a:extLst>'),
+    ("{%(a)s}spPr", None),
+    ("{%(p)s}spPr", '<a:extLst xmlns:a="%(a)s"><a:ext uri="{11111111-2222-3333-4444-555555555555}"><x:y xmlns:x="urn:x-foreign"/></a:ext></a:extLst>'),
+    ("{%(a)s}ln", '<a:extLst xmlns:a="%(a)s"><a:ext uri="{11111111-2222-3333-4444-555555555555}"><x:y xmlns:x="urn:x-foreign"/></a:ext></a:extLst>'),
+    ("{%(a)s}blip", '<a:extLst xmlns:a="%(a)s"><a:ext uri="{28A0092B-C50C-407E-A947-70E740481C1C}"><x:y xmlns:x="urn:x-foreign"/></a:ext></a:extLst>'),
+    ("{%(c)s}chartSpace", '<c:extLst xmlns:c="%(c)s"><c:ext uri="{11111111-2222-3333-4444-555555555555}"><x:y xmlns:x="urn:x-foreign"/></c:ext></c:extLst>'),
+    ("{%(c)s}chart", '<c:extLst xmlns:c="%(c)s"><c:ext uri="{11111111-2222-3333-4444-555555555555}"><x:y xmlns:x="urn:x-foreign"/></c:ext></c:extLst>'),
+    ("{%(c)s}plotArea", '<c:extLst xmlns:c="%(c)s"><c:ext uri="{11111111-2222-3333-4444-555555555555}"><x:y xmlns:x="urn:x-foreign"/></c:ext></c:extLst>'),
+    ("{%(c)s}ser", '<c:extLst xmlns:c="%(c)s"><c:ext uri="{11111111-2222-3333-4444-555555555555}"><x:y xmlns:x="urn:x-foreign"/></c:ext></c:extLst>'),
+    ("{%(c)s}valAx", '<c:extLst xmlns:c="%(c)s"><c:ext uri="{11111111-2222-3333-4444-555555555555}"><x:y xmlns:x="urn:x-foreign"/></c:ext></c:extLst>'),
+    ("{%(c)s}catAx", '<c:extLst xmlns:c="%(c)s"><c:ext uri="{11111111-2222-3333-4444-555555555555}"><x:y xmlns:x="urn:x-foreign"/></c:ext></c:extLst>'),
+    ("{%(c)s}dLbls", '<c:extLst xmlns:c="%(c)s"><c:ext uri="{11111111-2222-3333-4444-555555555555}"><x:y xmlns:x="urn:x-foreign"/></c:ext></c:extLst>'),
+    ("{%(c)s}legend", '<c:extLst xmlns:c="%(c)s"><c:ext uri="{11111111-2222-3333-4444-555555555555}"><x:y xmlns:x="urn:x-foreign"/></c:ext></c:extLst>'),
+]
+
+
+def donors():
+    """{parent tag: {child tag: [serialised child]}} harvested from the PowerPoint-authored parts of the corpus (children
+    that carry no relationship ids and no object ids), plus a few elements current producers write"""
+    global _DONORS
+    if _DONORS is not None:
+        return _DONORS
+    from pptx import Presentation
+    from harness import common, xmllab as X
+
+    ns = {"p": "http://schemas.openxmlformats.org/presentationml/2006/main", "a": "http://schemas.openxmlformats.org/drawingml/2006/main",
+          "c": "http://schemas.openxmlformats.org/drawingml/2006/chart"}
+    pool = {}
+    for par, xml in _STATIC_DONORS:
+        if xml is None:
+            continue
+        el = etree.fromstring(xml % ns)
+        pool.setdefault(par % ns, {}).setdefault(el.tag, []).append(etree.tostring(el))
+    shape_tags = {"sp", "pic", "grpSp", "graphicFrame", "cxnSp", "contentPart", "ser", "sldId", "sldMasterId", "sldLayoutId", "notesMasterId"}
+    for d in common.corpus_decks():
+        try:
+            prs = Presentation(str(d))
+        except Exception:  # noqa
+            continue
+        for pn, root in X.xml_parts(prs.part.package):
+            if X.schema_for(root) is None:
+                continue
+            for e in root.iter():
+                if not isinstance(e.tag, str) or e is root:
+                    continue
+                if etree.QName(e).localname in shape_tags:
+                    continue
+                bad = False
+                for x in e.iter():
+                    if not isinstance(x.tag, str):
+                        continue
+                    if any(k == "id" or k.startswith("{" + R_NS_) for k in x.attrib):
+                        bad = True
+                        break
+                if bad or len(etree.tostring(e)) > 4000:
+                    continue
+                lst = pool.setdefault(e.getparent().tag, {}).setdefault(e.tag, [])
+                if len(lst) < 6:
+                    ser = etree.tostring(e)
+                    if ser not in lst:
+                        lst.append(ser)
+    _DONORS = pool
+    return pool
+
+
+def enrich(data, rng, per_part=12):
+    """the dual of `thin`: a deck to whose elements optional children were ADDED that the schema permits and the deck did
+    not have (taken from PowerPoint-authored parts, or trailing extension lists, timing and transition elements current
+    producers write), each at a position lxml accepts; every part stays schema-valid.  -> (bytes, number added)"""
+    from pptx import Presentation
+    from pptx.oxml import parse_xml
+    from harness import xmllab as X
+
+    pool = donors()
+    prs = Presentation(io.BytesIO(data))
+    added = 0
+    for pn, el in X.xml_parts(prs.part.package):
+        if X.schema_for(el) is None or not X.validate(el)[0]:
+            continue
+        nodes = [e for e in el.iter() if isinstance(e.tag, str) and e.tag in pool]
+        if not nodes:
+            continue
+        rng.shuffle(nodes)
+        # the part's root element and its first levels always take part: that is where extension lists, timing and
+        # transition elements live
+        top = [e for e in nodes if sum(1 for _ in e.iterancestors()) <= 2]
+        order = top + [e for e in nodes if not any(e is t for t in top)]
+        def try_add(e, t):
+            child = parse_xml(rng.choice(pool[e.tag][t]))
+            for pos in range(len(e), -1, -1):
+                e.insert(pos, child)
+                if X.validate(el)[0]:
+                    return 1
+                e.remove(child)
+            return 0
+
+        for e in top:
+            have = {c.tag for c in e if isinstance(c.tag, str)}
+            for t in sorted(pool[e.tag]):
+                if t not in have and rng.random() < 0.7:
+                    added += try_add(e, t)
+        for e in order[len(top):][:per_part]:
+            have = {c.tag for c in e if isinstance(c.tag, str)}
+            cands = [t for t in pool[e.tag] if t not in have]
+            if not cands:
+                continue
+            # trailing extension lists first: that is where hand-written `append` calls go wrong
+            ext = [t for t in cands if t.endswith("}extLst")]
+            t = rng.choice(ext) if ext and rng.random() < 0.5 else rng.choice(cands)
+            added += try_add(e, t)
+    out = io.BytesIO()
+    prs.save(out)
+    return out.getvalue(), added
+
+
 def renumber_slides(data, rng):
     """the same deck with its slide parts under other numbers (a gap, a permutation, a number above the count): the first
     access to Presentation.slides renames them"""
